@@ -262,7 +262,10 @@ def gen_masses(rnd, tree, edge):
             q = 10 ** rnd.uniform(-5, -2)  # near threshold
         else:
             q = rnd.uniform(0.05, 1.5)
-        m[n.part] = s + q
+        # keep intermediate states away from the ultra-relativistic regime (gamma <~ 1e2..1e3: the tie covers
+        # |v| up to 1-1e-6; a 3e-5 GeV state decaying to massless particles has 1-|v| ~ 1e-10 when boosted and the
+        # float64 round trip is then only ~1e-9 accurate - conditioning, not a defect)
+        m[n.part] = max(s + q, 0.02)
         return m[n.part]
     go(tree)
     return m
@@ -479,6 +482,13 @@ def chain_case(ctx, cs, cid, chain, mass, cost, phi, rt_tol=1e-9, coq=True):
     ms2 = {str(k): float(arr(v)[0]) for k, v in ms2.items()}
     c2 = [float(arr(x)[0]) for x in c2]
     ph2 = [float(arr(x)[0]) for x in ph2]
+    # conditioning: largest gamma^2 of a decaying daughter in its parent's frame
+    gmax2 = 1.0
+    for d in dec_list:
+        qd = float(arr(get_relative_p(ms_t[d.core], ms_t[d.outs[0]], ms_t[d.outs[1]]))[0])
+        for o in d.outs:
+            if chain_has(chain, o) and mass[o] > 0:
+                gmax2 = max(gmax2, 1 + (qd / mass[o]) ** 2)
     for j, d in enumerate(dec_list):
         nd = own[tuple(sorted(Node(None, d, [own_node(tree, o) for o in d.outs]).finals()))]
         sn = bykey[nd.key()]
@@ -491,8 +501,8 @@ def chain_case(ctx, cs, cid, chain, mass, cost, phi, rt_tol=1e-9, coq=True):
         if not (abs(math.cos(be) - c2[j]) <= 1e-14 and abs(math.cos(al) - math.cos(ph2[j])) <= 1e-14 and abs(math.sin(al) - math.sin(ph2[j])) <= 1e-14):
             bad("R.wiring", "find_variable slot %d is not the angle of the first daughter of %s" % (j, d), got={"cos": c2[j], "phi": ph2[j]}, expected={"beta": be, "alpha": al})
         sth = math.sqrt(max(0.0, 1 - cost[j] ** 2))
-        tol_c = rt_tol
-        tol_p = rt_tol / max(sth, 1e-9)
+        tol_c = rt_tol * (1 + 1e-3 * gmax2)
+        tol_p = rt_tol * (1 + 1e-3 * gmax2) / max(sth, 1e-9)
         if abs(c2[j] - cost[j]) > tol_c:
             bad("R.roundtrip", "cos(theta) of %s: in %r out %r" % (d, cost[j], c2[j]))
         if abs(math.cos(ph2[j]) - math.cos(phi[j])) > tol_p or abs(math.sin(ph2[j]) - math.sin(phi[j])) > tol_p:
@@ -792,7 +802,8 @@ def run(ctx):
     ctx.discharged += nextra - len({x["case"] for x in pyfails if x["case"].startswith("r")})
     for c in cs.items[:: max(1, len(cs.items) // 3)]:
         ctx.sample({"case": c[0], "goal": c[1][:300], "meta": {k: v for k, v in c[3].items() if k != "input"}})
-    res = common.coq_cases(ctx, "kin", HEADER, [c[:3] for c in cs.items], per_file=max(25, len(cs.items) // 48 + 1), case_timeout=60)
+    res = common.coq_cases(ctx, "kin", HEADER, [c[:3] for c in cs.items], per_file=max(25, min(60, len(cs.items) // 48 + 1)),
+                           timeout=900 if quick else 3600, case_timeout=60 if quick else 120)
     for cid, stmt, t, meta in cs.items:
         if res[cid] != "OK":
             ctx.fail(meta["layer"], cid, "implementation value not within tolerance of the model (%s)" % res[cid],
